@@ -85,8 +85,9 @@ func buildC10(c *core.Ctx, v c10Variant, root string) (*c10Chain, error) {
 	build := gen.Step("build", v.Threshold, gen.KeyIDs(A), nil, [][]string{{"CREATE", "{PRODUCT}"}, {"DISALLOW", "*"}})
 	build.CertificateConstraints = []intoto.CertificateConstraint{cc}
 	build.ExpectedCommand = []string{"make", "{PRODUCT}"}
-	test := gen.Step("test", 1, gen.KeyIDs(B), [][]string{{"MATCH", "{PRODUCT}", "WITH", "PRODUCTS", "FROM", "build"}, {"DISALLOW", "*"}}, [][]string{{"ALLOW", "*"}})
-	insp := gen.Inspection("check", []string{Helper(c), "touch", filepath.Join(ch.markerDir, "mark{MARK}")}, [][]string{{"ALLOW", "*"}}, [][]string{{"ALLOW", "*"}})
+	test := gen.Step("test", 1, gen.KeyIDs(B), [][]string{{"MATCH", "{PRODUCT}", "WITH", "PRODUCTS", "FROM", "build"}, {"DISALLOW", "*"}}, [][]string{{"ALLOW", "./nothing//here/*"}, {"DISALLOW", "no-such-dir/"}, {"ALLOW", "*"}})
+	// (patterns that are not written the way a cleaned path is written, matching nothing: the layout object must keep them as they are)
+	insp := gen.Inspection("check", []string{Helper(c), "touch", filepath.Join(ch.markerDir, "mark{MARK}")}, [][]string{{"ALLOW", "unused/../unused//x"}, {"ALLOW", "*"}}, [][]string{{"DISALLOW", "./no-such-file"}, {"ALLOW", "*"}})
 	if v.RelExe {
 		// ./tools/run.sh relative to the directory the inspection runs in (and, harmlessly, to the caller's
 		// working directory of the run-directory entry point); a tiny wrapper around the helper
@@ -753,7 +754,7 @@ func init() {
 	core.Register(&core.Property{
 		ID:    "C10",
 		Level: "exploration",
-		Rule: "chains biased to the anchors: step with one key-authorized and one certificate-authorized link (threshold 0, 1 and 2; the two links agreeing or disagreeing), certificate constraint lists that are not sorted, rules / expected command / inspection run with {PRODUCT} and {MARK} markers, a link whose artifact path needs cleaning (./bin//app) consumed by a MATCH rule, optionally two steps delegated to sublayouts of two functionaries and (legacy wrapper) a third one to a functionary who is authorized through a certificate constraint, two supplied layout keys (both signed / second without a signature / second with a corrupt signature), an inspection executable given by a relative path, three valid links of which one disagrees, a MATCH rule between artifacts that carry two digest algorithms of which only one agrees, one functionary key listed under two key ids (two lists of key id hash algorithms) whose two links differ; the layout has an intermediate CA of its own and the caller passes a list of additional intermediates with spare capacity whose backing array is compared before/after; 2 wrappers x 2 entry points; all histories of length<=2 plus 12 of length 3 (quick) / all of length<=3 plus 30 of length 4 (thorough) over the dictionaries {none, p (accepting), q (rejecting), r (a value containing another parameter's marker)} on ONE in-memory layout object: every outcome (verdict, summary, executed marker) must equal the outcome of a freshly loaded copy, and the serialisation of the layout object (payload, signatures, dumped envelope), of the key map and of the dictionary, and (entry point with a run directory of its own) the content of the inspected directory must be unchanged after every call; two sound chains whose layouts define one key id with different key material are verified alternately (6 verifications, all accepted); a sound nested chain verified alternately with a broken one, 30 rounds (failures leave nothing behind); a layout whose inspection disallows a file, verified 13 times in one process alternating InTotoVerify / InTotoVerifyWithDirectory over a directory that holds the file and one that does not (absolute and relative run directories, both wrappers; every verdict fixed beforehand); each baseline is repeated R=16 (quick) / 64 (thorough) times and each history R/4 times with fresh maps. " +
+		Rule: "chains biased to the anchors: step with one key-authorized and one certificate-authorized link (threshold 0, 1 and 2; the two links agreeing or disagreeing), certificate constraint lists that are not sorted, rules / expected command / inspection run with {PRODUCT} and {MARK} markers, a link whose artifact path needs cleaning (./bin//app) consumed by a MATCH rule, rule patterns that are not written the way a cleaned path is (./nothing//here/*, no-such-dir/, unused/../unused//x) and match nothing, optionally two steps delegated to sublayouts of two functionaries and (legacy wrapper) a third one to a functionary who is authorized through a certificate constraint, two supplied layout keys (both signed / second without a signature / second with a corrupt signature), an inspection executable given by a relative path, three valid links of which one disagrees, a MATCH rule between artifacts that carry two digest algorithms of which only one agrees, one functionary key listed under two key ids (two lists of key id hash algorithms) whose two links differ; the layout has an intermediate CA of its own and the caller passes a list of additional intermediates with spare capacity whose backing array is compared before/after; 2 wrappers x 2 entry points; all histories of length<=2 plus 12 of length 3 (quick) / all of length<=3 plus 30 of length 4 (thorough) over the dictionaries {none, p (accepting), q (rejecting), r (a value containing another parameter's marker)} on ONE in-memory layout object: every outcome (verdict, summary, executed marker) must equal the outcome of a freshly loaded copy, and the serialisation of the layout object (payload, signatures, dumped envelope), of the key map and of the dictionary, and (entry point with a run directory of its own) the content of the inspected directory must be unchanged after every call; two sound chains whose layouts define one key id with different key material are verified alternately (6 verifications, all accepted); a sound nested chain verified alternately with a broken one, 30 rounds (failures leave nothing behind); a layout whose inspection disallows a file, verified 13 times in one process alternating InTotoVerify / InTotoVerifyWithDirectory over a directory that holds the file and one that does not (absolute and relative run directories, both wrappers; every verdict fixed beforehand); each baseline is repeated R=16 (quick) / 64 (thorough) times and each history R/4 times with fresh maps. " +
 			"non-trivial = history of length>=2 or R>=2 with >=2 links in a step; distinct = (variant, history)",
 		Assumptions: []string{"the iteration order taken inside the library is not observable; reported are R, the number of distinct outcomes per case and the number of distinct orders a same-sized probe map showed in the same process"},
 		Workers:     func(string) int { return 16 },
